@@ -261,6 +261,33 @@ SinglePath(d) ==
     [] OTHER -> FALSE
 
 -----------------------------------------------------------------------------
+(* Shared nodes (C16).  A descriptor node may carry a share id (field        *)
+(* `share`, "" = none): the harness installs ONE Python object at every      *)
+(* position carrying the same id.  Only some positions hold the user's       *)
+(* object itself - the children of Label / UntypedLabel / Index / Branch and *)
+(* the cut of Select; every other child position (Bin values and flows,      *)
+(* sparse templates, Fraction, Stack, ...) holds copies made by the parent,  *)
+(* so nothing below it is shared.  A tree is SharedFillable when one id      *)
+(* occurs at two installed positions: filling it must raise.                 *)
+ShareOf(d) == IF "share" \in DOMAIN d THEN d.share ELSE ""
+RECURSIVE InstalledIds(_)
+InstalledIds(d) ==      \* sequence of share ids at installed positions (with multiplicity)
+  LET own == IF ShareOf(d) = "" THEN <<>> ELSE <<ShareOf(d)>> IN
+  CASE d.k = "Select" -> own \o InstalledIds(d.cut)
+    [] d.k \in {"Label", "UntypedLabel"} ->
+         LET RECURSIVE Cat(_)
+             Cat(S) == IF S = {} THEN <<>>
+                       ELSE LET key == CHOOSE key \in S : TRUE IN InstalledIds(d.pairs[key]) \o Cat(S \ {key})
+         IN own \o Cat(DOMAIN d.pairs)
+    [] d.k \in {"Index", "Branch"} ->
+         LET RECURSIVE CatS(_)
+             CatS(i) == IF i > Len(d.vals) THEN <<>> ELSE InstalledIds(d.vals[i]) \o CatS(i + 1)
+         IN own \o CatS(1)
+    [] OTHER -> own
+SharedFillable(d) ==
+  LET ids == InstalledIds(d) IN \E i, j \in DOMAIN ids : i # j /\ ids[i] = ids[j]
+
+-----------------------------------------------------------------------------
 (* Merge(a, b): a + b                                                       *)
 MergeKeyed(A, B, M(_, _)) ==
   [key \in DOMAIN A \cup DOMAIN B |->
